@@ -103,10 +103,33 @@ EvalNode(S, i, t) ==
                  IN  Write(S1, i, t, v)
             ELSE S
       [] n.kind = "delay" ->
+            \* a due echo runs user code only if the required input (still) holds a value (C03); the wake-up is
+            \* consumed either way
             LET due == S.pend[i] = t
-                S1  == IF due THEN [Write(S, i, t, S.st[i]) EXCEPT !.pend[i] = 0] ELSE S
+                S1  == IF due THEN (IF allOk THEN [Write(S, i, t, S.st[i]) EXCEPT !.pend[i] = 0] ELSE [S EXCEPT !.pend[i] = 0])
+                       ELSE S
             IN  IF anyTick
                 THEN [S1 EXCEPT !.st[i] = iv[1], !.pend[i] = t + n.k]
+                ELSE S1
+      [] n.kind = "ite" ->
+            \* C13: the output is a reference to the selected input; readers observe the referenced target itself.
+            \* st[i] = the concrete node currently referenced (0 = nothing published yet).  A reference to another
+            \* reference is flattened to that reference's current target, and follows it when it retargets.
+            \* The selection is re-published when the condition ticks or the selected reference itself changed,
+            \* provided the selected input has a reference to offer and it differs from the published one
+            \* (republishing the same reference is not a tick).  Readers see: a tick with the target's current value
+            \* when the reference is retargeted to a valid target, every tick of the referenced target, nothing from
+            \* any other target; the reference is valid exactly when its target is.
+            LET c    == n.ins[1]
+                x    == IF Valid(S, c) THEN n.ins[(IF S.val[c] # 0 THEN 1 ELSE 2) + 1] ELSE 0
+                cand == IF x = 0 THEN 0 ELSE IF Node(x).kind = "ite" THEN S.st[x] ELSE x
+                trig == x # 0 /\ (Ticked(S, c, t) \/ x \in S.rt)
+                chg  == trig /\ cand # 0 /\ cand # S.st[i]
+                tgt  == IF chg THEN cand ELSE S.st[i]
+                S1   == IF chg THEN [S EXCEPT !.st[i] = cand, !.rt = @ \cup {i}] ELSE S
+            IN  IF tgt = 0 THEN S1
+                ELSE IF ~Valid(S, tgt) THEN [S1 EXCEPT !.lmt[i] = 0, !.val[i] = 0]
+                ELSE IF chg \/ Ticked(S, tgt, t) \/ ~Valid(S, i) THEN Write(S1, i, t, S.val[tgt])
                 ELSE S1
       [] n.kind = "throwneg" ->
             IF anyTick /\ allOk
@@ -126,7 +149,8 @@ EvalNode(S, i, t) ==
 RECURSIVE RunFrom(_, _, _)
 RunFrom(S, i, t) == IF i > N(prog) THEN S ELSE RunFrom(EvalNode(S, i, t), i + 1, t)
 
-Pack == [val |-> val, lmt |-> lmt, st |-> st, pend |-> pend, fbq |-> fbq, writes |-> writes, errs |-> errs]
+Pack == [val |-> val, lmt |-> lmt, st |-> st, pend |-> pend, fbq |-> fbq, writes |-> writes, errs |-> errs,
+         rt |-> {}]   \* rt: references retargeted in the cycle being computed
 
 (***************************************************************************)
 (* Initial state: the engine at the start of the run window.               *)
@@ -188,7 +212,7 @@ TimeMonotone == \A j \in 1..Len(cycles) :
                    /\ (j > 1 => cycles[j - 1] < cycles[j])
 
 \* C03/C04: a node's last-modified time is the time of its latest write and never in the future
-LmtIsLastWrite == \A i \in 1..N(prog) :
+LmtIsLastWrite == \A i \in {j \in 1..N(prog) : Node(j).kind # "ite"} :   \* a reference follows its target's validity
                      LET ws == {j \in 1..Len(writes) : writes[j][2] = i /\ Node(i).kind # "rec"}
                      IN  IF ws = {} THEN lmt[i] = 0
                          ELSE /\ lmt[i] = writes[CHOOSE j \in ws : \A k \in ws : k <= j][1]
